@@ -33,7 +33,7 @@ var (
 	durationType        = reflect.TypeOf(time.Duration(0))
 	cacheKeys           = make(map[string][]string)
 	cacheKeysLock       sync.Mutex
-	defaultCache        = make(map[string]any)
+	defaultCache        = make(map[defaultCacheKey]any)
 	defaultCacheLock    sync.Mutex
 	emptyMap            = map[string]any{}
 	emptyValue          = reflect.ValueOf(lang.Placeholder)
@@ -55,6 +55,12 @@ type (
 		fromString   bool
 		opaqueKeys   bool
 		canonicalKey func(key string) string
+	}
+
+	// defaultCacheKey identifies a parsed slice default: the text and how it was parsed.
+	defaultCacheKey struct {
+		value       string
+		stringElems bool
 	}
 )
 
@@ -267,8 +273,10 @@ func (u *Unmarshaler) fillSliceWithDefault(derefedType reflect.Type, value refle
 	defaultValue, fullName string) error {
 	baseFieldType := Deref(derefedType.Elem())
 	baseFieldKind := baseFieldType.Kind()
+	// string elements and other elements parse the same text differently
+	cacheKey := defaultCacheKey{value: defaultValue, stringElems: baseFieldKind == reflect.String}
 	defaultCacheLock.Lock()
-	slice, ok := defaultCache[defaultValue]
+	slice, ok := defaultCache[cacheKey]
 	defaultCacheLock.Unlock()
 	if !ok {
 		if baseFieldKind == reflect.String {
@@ -278,7 +286,7 @@ func (u *Unmarshaler) fillSliceWithDefault(derefedType reflect.Type, value refle
 		}
 
 		defaultCacheLock.Lock()
-		defaultCache[defaultValue] = slice
+		defaultCache[cacheKey] = slice
 		defaultCacheLock.Unlock()
 	}
 
